@@ -99,6 +99,96 @@ theorem limit_class_iff_exempt (r : Req) :
     rw [if_pos (hiff.mpr h)]
 
 /-! non-vacuity -/
+/-- replace the body that an outcome relays -/
+def withBody (b : List UInt8) : Outcome → Outcome
+  | .forward u => .forward { u with body := b }
+  | o => o
+
+/-- **C15(e)** for the upload class (the requests that are not signed: `PUT /vmAgentLog`, `POST /machine/?comp=telemetrydata`) the
+body is opaque: the verdict depends on it through its length alone, and what is relayed is the body as given. This is what
+lets the check judge uploads of many MiB by length and byte-equality without running the list-based model on them. -/
+theorem upload_body_opaque (env : Env) (conn : Conn) (r : Req) (b : List UInt8)
+    (hx : shouldSkipSig r.method r.uri = true) (hl : b.length = r.body.length) :
+    (handle mac env conn { r with body := b }).outcome = withBody b (handle mac env conn r).outcome ∧
+    (handle mac env conn { r with body := b }).failedAuth = (handle mac env conn r).failedAuth := by
+  have hlim : limitFor { r with body := b } = limitFor r := rfl
+  unfold handle
+  try dsimp only
+  rw [hlim]
+  split
+  · exact ⟨rfl, rfl⟩
+  split
+  · exact ⟨rfl, rfl⟩
+  split
+  · exact ⟨rfl, rfl⟩
+  unfold connStage
+  try dsimp only
+  cases conn.dest with
+  | none => exact ⟨rfl, rfl⟩
+  | some d =>
+    obtain ⟨ip, port⟩ := d
+    try dsimp only
+    cases conn.caller with
+    | none => exact ⟨rfl, rfl⟩
+    | some caller =>
+      try dsimp only
+      unfold authStage
+      try dsimp only
+      cases rulesFor (endpointOf ip port) env with
+      | err => exact ⟨rfl, rfl⟩
+      | ok rules =>
+        try dsimp only
+        split
+        · exact ⟨rfl, rfl⟩
+        · refine ⟨?_, rfl⟩
+          unfold forwardStage
+          try dsimp only
+          rw [hlim, hl]
+          split
+          · rfl
+          all_goals first | rfl | (rw [if_pos hx, if_pos hx]; rfl) | (exact absurd hx ‹_›)
+
+/-- the body an accepted upload relays is the body received, byte for byte -/
+theorem upload_relays_body_as_given (env : Env) (conn : Conn) (r : Req) (u : UpReq)
+    (hx : shouldSkipSig r.method r.uri = true) (h : (handle mac env conn r).outcome = .forward u) :
+    u.body = r.body ∧ u.signed = none := by
+  unfold handle at h
+  split at h
+  · cases h
+  split at h
+  · cases h
+  split at h
+  · cases h
+  unfold connStage at h
+  cases hd : conn.dest with
+  | none => rw [hd] at h; cases h
+  | some d =>
+    obtain ⟨ip, port⟩ := d
+    rw [hd] at h
+    dsimp only at h
+    cases hc : conn.caller with
+    | none => rw [hc] at h; cases h
+    | some caller =>
+      rw [hc] at h
+      dsimp only at h
+      unfold authStage at h
+      cases hr : rulesFor (endpointOf ip port) env with
+      | err => rw [hr] at h; cases h
+      | ok rules =>
+        rw [hr] at h
+        dsimp only at h
+        split at h
+        · cases h
+        · dsimp only at h
+          unfold forwardStage at h
+          dsimp only at h
+          split at h
+          · cases h
+          · try rw [if_pos hx] at h
+            unfold mkForward at h
+            cases h
+            exact ⟨rfl, rfl⟩
+
 example : specLimit { method := "PUT".toList, uri := ⟨"/VMAgentLog".toList, none⟩, headers := [], body := [], declared := none } = specLarge := by decide
 example : specLimit { method := "GET".toList, uri := ⟨"/vmagentlog".toList, none⟩, headers := [], body := [], declared := none } = specLow := by decide
 
